@@ -724,6 +724,20 @@ func run(c *runner.Ctx) {
 			}
 		}
 	}
+	quads := func(ps [][]opk) func(emit func([][]opk)) {
+		return func(emit func([][]opk)) {
+			for i := range ps {
+				for j := i; j < len(ps); j++ {
+					for k := j; k < len(ps); k++ {
+						for l := k; l < len(ps); l++ {
+							emit([][]opk{ps[i], ps[j], ps[k], ps[l]})
+						}
+					}
+				}
+			}
+		}
+	}
+	r1 := allProgs(redAlpha, 1)
 	// H2x3: one thread stores three times (continuous eviction), the other runs every 3-op program over {Load,Len,Dump,Delete}
 	h2x3 := func(emit func([][]opk)) {
 		writers := [][]opk{{{'S', "a"}, {'S', "b"}, {'S', "c"}}, {{'S', "c"}, {'S', "a"}, {'S', "c"}}}
@@ -742,12 +756,14 @@ func run(c *runner.Ctx) {
 				{"H3x1-unbounded", -1, triples(p1), cfgs},
 				{"H2x3-bound3", 3, h2x3, cfgs[1:7]},
 				{"H3x2-bound2", 2, triples(r2), []cfgT{{1, nil, 0}, {2, []string{"a"}, 0}, {2, []string{"a", "b"}, 0}}},
+				{"H4x1-bound3", 3, quads(p1), cfgs[:9]},
 			}
 		} else {
 			plans = []plan{
 				{"H2x2-bound2", 2, pairs(p2), cfgs},
 				{"H3x1-bound3", 3, triples(p1), cfgs},
 				{"H2x3-bound2", 2, h2x3, cfgs[1:2]},
+				{"H4x1-bound1", 1, quads(r1), cfgs[:3]},
 			}
 		}
 	} else {
@@ -804,10 +820,10 @@ func main() {
 	runner.Main(runner.Config{
 		Property:  "C10",
 		Technique: "stateless model checking of the real LRUCache under a controlled scheduler (all interleavings / preemption-bounded), linearizability vs sequential model, race detector on every schedule",
-		Rule: "case = one harness (capacity, pre-fill, 2-3 thread programs over Store/Load/Delete(a|b|c)/Len/Dump); for each, every schedule within the bound is executed on the real code; " +
+		Rule: "case = one harness (capacity, pre-fill, 2-4 thread programs over Store/Load/Delete(a|b|c)/Len/Dump); for each, every schedule within the bound is executed on the real code; " +
 			"transitions = scheduling steps; states = distinct call/return histories; non-trivial = harnesses in which two operations on the same key overlapped in some schedule",
 		Assumptions: []string{"sequential consistency for race-free executions (race freedom itself is checked by the Go race detector on every explored schedule in the race build)",
-			"RWMutex writer preference is not modelled (removes schedules, no reachable outcome)", "2-3 threads, <=3 operations per thread"},
+			"RWMutex writer preference is not modelled (removes schedules, no reachable outcome)", "2-4 threads, <=3 operations per thread"},
 		Run: run,
 		Modes: []runner.Mode{
 			{Name: "plain"},
